@@ -80,6 +80,9 @@ def r2(ctx):
         yield VIOL("C15-R2", "entry/parts-source", "from_request_parts is not given request.into_parts().0", where=e.span_of_block(frp[0]))
     elif not (a1.has_call(r"IntoRequestBytes::into_request_bytes$") and a1.has_call(r"Request::<T>::into_parts$")):
         yield VIOL("C15-R2", "entry/body-source", "from_request_parts is not given the request body converted by into_request_bytes", where=e.span_of_block(frp[0]))
+    elif [c_ for c_ in a1.callee_names() if not re.search(r"Request::<T>::into_parts$|IntoRequestBytes::into_request_bytes$|IntoFuture::into_future$|Future::poll$|future::get_context$|Pin::<Ptr>::new_unchecked$|ops::Try::branch$|FromResidual::from_residual$", c_)] or [c_ for c_ in a0.callee_names() if not re.search(r"Request::<T>::into_parts$", c_)]:
+        extra_ = sorted({c_.split("::")[-1] for c_ in a1.callee_names() + a0.callee_names() if not re.search(r"Request::<T>::into_parts$|IntoRequestBytes::into_request_bytes$|IntoFuture::into_future$|Future::poll$|future::get_context$|Pin::<Ptr>::new_unchecked$|ops::Try::branch$|FromResidual::from_residual$", c_)})
+        yield VIOL("C15-R2", "entry/body-source", "what from_request_parts receives is not always the submitted parts / the converted body: on some path it comes from %s (a request whose body is dropped or replaced before it is hashed and returned)" % extra_, where=e.span_of_block(frp[0]))
     else:
         # no mutation of the parts between into_parts and from_request_parts
         pl = root_local(e, frp[1]["args"][0])
